@@ -142,6 +142,8 @@ CODEMAPS = {
     "dense": lambda k: k,
     "sparse": lambda k: 7001 * k + 3,      # range > 10000: the code->symbol vector is not used, hash table is
     "zero": lambda k: k - 1,               # includes code 0
+    "gapzero": lambda k: {1: 0, 2: 2, 8: 1, 9: 300}.get(k, 400 + k),   # declared 0 and 2; 8 -> gap code 1; 9 -> far outside
+    "gap": lambda k: {1: 97, 2: 99, 8: 98, 9: 200}.get(k, 400 + k),
 }
 
 
